@@ -251,8 +251,17 @@ def critWrite (a : Args) (enc wire tried : Bytes) : Bool :=
   let full := (fullCmds a ++ enc).length
   decide (wire.length < full) && decide (full ≤ wire.length + tried.length)
 
-/-- the failing write as the oracle labels it: inside `blast()` the label is recomputed from the bytes
-    (`crit`), whatever the client's `flagcritical` said -/
+/-- has the statement `flagcritical = 1` been executed when this write is issued? `blast()` executes it
+    after the last body byte was put and before the 3-byte terminator `.CRLF` is put, and a buffer-full
+    flush is issued by the put that does not fit and carries everything put before it — so a write has
+    `flagcritical = 1` iff with it the server has all of `enc` but (at most) the terminator. This is how
+    the driver chooses between `body` and `final` for the *model* (which has no buffering); it is computed
+    from bytes, the client's variable is never read. -/
+def flagWrite (a : Args) (enc wire tried : Bytes) : Bool :=
+  decide ((fullCmds a ++ enc).length ≤ wire.length + tried.length + 3)
+
+/-- relabel a failing write inside `blast()` from a fact computed from its bytes: `flagWrite` for the
+    model's script, `critWrite` for the oracle's abstract script -/
 def oracleWf (wf : Option WPoint) (crit : Bool) : Option WPoint :=
   match wf with
   | some .body => if crit then some .final else some .body
